@@ -1,5 +1,5 @@
 """C01 - a chain never returns a stale or foreign result."""
-from ..core import Prop
+from ..core import Prop, Suite
 from .c09 import ContextReuse
 from ..suites_hist import Histories
 from .c04 import DataKinds
@@ -11,9 +11,70 @@ class StoredValues(DataKinds):
     name = 'stored_values_of_every_data_class'
 
 
+class NameModeParts(Suite):
+    """persistence by config name (parameter_mode=False): configurations of one task that differ in a parameter value and
+    come from the parts of one multi-config file, from files with the same stem in different directories, or from one
+    file under two contexts - mounted under two namespaces of one chain, and requested again after a restart: every task
+    yields the value of its own configuration.  Runtime check only (the history model is parameter mode)."""
+    name = 'name_mode_configurations'
+    model = ''
+
+    def gen(self, rng, tier):
+        return [dict(layout=l, xs=xs, order=o) for l in ('parts', 'files') for xs in ([1, 2], [2, 1], [5, 5]) for o in (0, 1)]
+
+    def run_impl(self, case):
+        import json
+        from pathlib import Path
+        from taskchain import Config
+        from .. import pipeline as pl
+        from ..suites_chain import K, P
+        from .c05 import in_child
+        classes = [dict(K(0, 'Src', params=[P('x')]), name='src'), dict(K(1, 'Dst', meta_inputs=[{'cls': 0}]), name='dst')]
+        a, b = case['xs']
+        if case['layout'] == 'parts':
+            files = {'multi.json': {'configs': {'small': {'tasks': ['@M.*'], 'x': a, 'main_part': True}, 'large': {'tasks': ['@M.*'], 'x': b}}},
+                     'main.json': {'uses': ['multi.json#small as small', 'multi.json#large as large']}}
+        else:
+            files = {'one/small.json': {'tasks': ['@M.*'], 'x': a}, 'two/large.json': {'tasks': ['@M.*'], 'x': b},
+                     'main.json': {'uses': ['one/small.json as small', 'two/large.json as large']}}
+        if case['order']:
+            files['main.json']['uses'] = files['main.json']['uses'][::-1]
+        with pl.workspace(dict(classes=classes, files=files)) as (d, mod):
+            def see():
+                ch = Config(Path('data'), 'main.json').chain(parameter_mode=False)
+                return {n: dict(value=pl.to_spec(t.value), path=str(t.data_path)) for n, t in ch.tasks.items()}
+            first = see()
+            again = in_child(see)
+            return dict(first=first, again=again)
+
+    def oracle(self, case, obs):
+        import json
+        if 'unexpected_exception' in obs:
+            return f'unexpected exception {obs["unexpected_exception"]}: {obs["text"]}'
+        if 'child_error' in obs.get('again', {}):
+            return f'{case}: the second process failed: {obs["again"]["child_error"]}'
+        want = {'small': repr(case['xs'][0]), 'large': repr(case['xs'][1])}
+        for tag in ('first', 'again'):
+            o = obs[tag]
+            for ns, x in want.items():
+                v = o[f'{ns}::src']['value']
+                if v.get('p', {}).get('x') != x:
+                    return f'{case}: {ns}::src ({tag} process) yields {v}; its configuration has x={x}'
+                up = o[f'{ns}::dst']['value'].get('i', [[None, {}]])[0][1]
+                if up.get('p', {}).get('x') != x:
+                    return f'{case}: {ns}::dst ({tag} process) was computed from {up}; its configuration has x={x}'
+        return None
+
+    def nontrivial(self, case, obs):
+        return case['xs'][0] != case['xs'][1]
+
+    def key(self, case):
+        return repr(case)
+
+
 class C01(Prop):
     pid = 'C01'
-    suites = [Histories(), StoredValues(), ContextReuse()]
+    suites = [Histories(), StoredValues(), ContextReuse(), NameModeParts()]
     trusted_base = ['the reference evaluator (harness/tcv/gen_pipeline.ref_value) and the frozen scheme renderer used by the oracle']
     assumptions = ['task computations are deterministic functions of their persisted parameters and inputs',
                    'location_determines_denotation (discharged by C03 under the no-collision hypothesis on SHA-256) and '
